@@ -6,7 +6,7 @@ ctxmgr        generator context managers restore their state in a `finally` (exc
 memo_shared   no functools cache on a function that hands out a fresh mutable container (callers mutate the shared value)
 """
 import ast
-from sa.model import unparse, call_name, kwarg, walk_no_nested
+from sa.model import unparse, call_name, kwarg, walk_no_nested, AnalysisError
 
 
 def all_dests(repo):
@@ -1159,3 +1159,38 @@ def slice_keeps_own_fields(chk, repo, rid, floor=5):
             chk.ob(rid, f"{cls_q.split(':')[1]}[...] passes `{k}` to the slice", f.where, ok,
                    f"the record built for a slice does not receive `{k}` from self.{k}: the slice silently loses it "
                    "(e.g. the selenocysteine positions of a transcript prefix used for a fusion)", key=f"{q}::{k}", fn=f.qual)
+
+
+def copy_scalar_fields(chk, repo, rid, class_quals, floor=1):
+    """R-KEYS: copy() hands every plain field on verbatim.  Fields = parameters P of the class's __init__ that it stores as
+    `self.P = P` (discovered).  Obligation per field: the constructor call of copy() passes P, and the value (locals expanded)
+    is `self.P` itself - not a value narrowed by a condition, a default or another field."""
+    from sa import sem
+    chk.rule(rid, 'R-KEYS: copy() passes every plain field of the instance on unchanged', floor)
+    for cq in class_quals:
+        ci = repo.classes.get(cq)
+        init = ci.methods.get('__init__') if ci else None
+        cp = (ci.methods.get('copy') or ci.methods.get('__copy__')) if ci else None
+        if init is None or cp is None:
+            raise AnalysisError(f"anchor={cq}: __init__ / copy not found")
+        chk.uses(init, cp)
+        params = [a.arg for a in init.node.args.args][1:] + [a.arg for a in init.node.args.kwonlyargs]
+        plain = [st.targets[0].attr for st in walk_no_nested(init.node)
+                 if isinstance(st, ast.Assign) and len(st.targets) == 1 and isinstance(st.targets[0], ast.Attribute) and unparse(st.targets[0].value) == 'self'
+                 and isinstance(st.value, ast.Name) and st.value.id == st.targets[0].attr and st.value.id in params]
+        ctor = [c for c in ast.walk(cp.node) if isinstance(c, ast.Call) and unparse(c.func) in ('self.__class__', ci.node.name, 'type(self)')]
+        if len(ctor) != 1:
+            chk.undecided(rid, f"{cq}.copy", cp.where, 'the constructor call of the copy was not found', key=cp.qual + '::ctor', fn=cp.qual)
+            continue
+        ch = sem.block_chains(cp.node)
+        st_c = repo.enclosing_stmt(ctor[0])
+        pos = [a.arg for a in init.node.args.args][1:]
+        for fld in plain:
+            v = kwarg(ctor[0], fld)
+            if v is None and fld in pos and pos.index(fld) < len(ctor[0].args):
+                v = ctor[0].args[pos.index(fld)]
+            e = sem.expand_names(cp.node, st_c, v, chains=ch) if v is not None else None
+            ok = e is not None and unparse(e) == f"self.{fld}"
+            chk.ob(rid, f"{ci.node.name}.copy passes {fld}=self.{fld}", repo.loc(cp, ctor[0]), ok,
+                   f"copy() hands `{fld}` on as `{unparse(e) if e is not None else '<default>'}` instead of self.{fld}: the copy differs from the node it was made from",
+                   key=f"{cp.qual}::field::{fld}", fn=cp.qual)
